@@ -706,7 +706,13 @@ func prove(goal *lin, facts []*lin, depth int) bool {
 // proveAt: prove goal >= 0 at instruction in; when that fails and the goal mentions a phi, prove it separately for each
 // incoming value with the facts available at the end of the corresponding predecessor.
 func (lf *linFn) proveAt(goal *lin, in ssa.Instruction, depth int) bool {
-	facts := lf.factsAt(in)
+	return lf.proveAtWith(goal, in, depth, nil)
+}
+
+// proveAtWith: extra are facts that hold where the goal is needed although they do not hold at `in` itself: the outcome
+// of the test that ends a predecessor block, on the edge a phi value arrives through.
+func (lf *linFn) proveAtWith(goal *lin, in ssa.Instruction, depth int, extra []*lin) bool {
+	facts := append(append([]*lin{}, lf.factsAt(in)...), extra...)
 	if prove(goal, facts, 0) {
 		return true
 	}
@@ -793,7 +799,12 @@ func (lf *linFn) proveAt(goal *lin, in ssa.Instruction, depth int) bool {
 			g := goal.clone()
 			delete(g.c, x)
 			g = g.addScaled(lf.form(e, 0), q)
-			if !lf.proveAt(g, pred.Instrs[len(pred.Instrs)-1], depth+1) {
+			// the test that ends the predecessor has a known outcome on the edge to the phi
+			var edge []*lin
+			if iff, isIf := pred.Instrs[len(pred.Instrs)-1].(*ssa.If); isIf && pred.Succs[0] != pred.Succs[1] {
+				edge = lf.condFacts(iff.Cond, pred.Succs[0] == ph.Block())
+			}
+			if !lf.proveAtWith(g, pred.Instrs[len(pred.Instrs)-1], depth+1, edge) {
 				okAll = false
 				break
 			}
